@@ -1317,6 +1317,10 @@ def apply_cut(obj, how):
         parts = obj.to_delayed()
         # verify_meta=False: the declared dtypes may legitimately differ from a partition's by pandas'
         # int/bool promotion (C07); from_delayed's check is about *user supplied* meta
+        if len(obj.divisions) != len(parts) + 1:
+            # the optimized plan behind to_delayed() has another partition count than the collection reports (a C06/C11 matter,
+            # e.g. a sort whose output count depends on the data): re-import without divisions
+            return dx.from_delayed(parts, meta=obj._meta, verify_meta=False)
         return dx.from_delayed(parts, meta=obj._meta, divisions=obj.divisions, verify_meta=False)
     if how == "delayed_nodiv":
         parts = obj.to_delayed()
